@@ -118,6 +118,9 @@ func (s *SignerGen) bestForKey(
 		// TODO	metrics.Signer.Generate(l.WithResult(metrics.ErrDB)).Inc()
 		return nil, err
 	}
+	// The subject key ID is only a name for the key. Make sure the certificate
+	// really authenticates this key.
+	chains = filterPublicKey(chains, key.Public())
 	if s.ExtKeyUsage != x509.ExtKeyUsageAny {
 		chains = filterChains(chains, s.ExtKeyUsage)
 	}
@@ -170,6 +173,21 @@ func filterChains(chains [][]*x509.Certificate, keyUsage x509.ExtKeyUsage) [][]*
 			continue
 		}
 		filtered = append(filtered, chain)
+	}
+	return filtered
+}
+
+// filterPublicKey returns only the chains whose AS certificate authenticates
+// the public key.
+func filterPublicKey(chains [][]*x509.Certificate, pub crypto.PublicKey) [][]*x509.Certificate {
+	type equaler interface {
+		Equal(crypto.PublicKey) bool
+	}
+	filtered := make([][]*x509.Certificate, 0, len(chains))
+	for _, chain := range chains {
+		if k, ok := chain[0].PublicKey.(equaler); ok && k.Equal(pub) {
+			filtered = append(filtered, chain)
+		}
 	}
 	return filtered
 }
